@@ -166,11 +166,13 @@ package sqlite
 //@   ensures fails-iff-a-type-is-missing: (err != nil) == (from.Type.Type == nil || to.Type.Type == nil)
 //@   ensures same-type-value-is-unchanged: err == nil && from.Type.Type == to.Type.Type ==> !changed
 
+//@ spec func gvcHasDefault(c *schema.Column) bool { _, ok := sqlx.DefaultValue(c); return ok }
 //@ func (d *diff) defaultChanged(from, to *schema.Column) (changed bool)
 //@   requires from != nil && to != nil
 //@   pure
 //@   modifies nothing
 //@   ensures same-column-is-unchanged: from == to ==> !changed
+//@   ensures a-default-appearing-or-vanishing-is-a-change: gvcHasDefault(from) != gvcHasDefault(to) ==> changed
 
 //@ func (d *diff) generatedChanged(from, to *schema.Column) (changed bool)
 //@   requires from != nil && to != nil
@@ -185,6 +187,8 @@ package sqlite
 //@   ensures nil-or-a-modification-of-the-two-columns: err == nil && r != nil ==> GvcIs[*schema.ModifyColumn](r) && r.(*schema.ModifyColumn) != nil &&
 //@           r.(*schema.ModifyColumn).From == from && r.(*schema.ModifyColumn).To == to && r.(*schema.ModifyColumn).Change != schema.NoChange
 //@   ensures null-flag-iff-nullability-differs: err == nil && r != nil ==> (r.(*schema.ModifyColumn).Change&schema.ChangeNull != 0) == (from.Type.Null != to.Type.Null)
+//@   ensures default-flag-iff-the-default-comparator-says-so: err == nil && r != nil ==> (r.(*schema.ModifyColumn).Change&schema.ChangeDefault != 0) == d.defaultChanged(from, to)
+//@   ensures default-change-is-reported: err == nil && d.defaultChanged(from, to) ==> r != nil
 //@   ensures nullability-change-is-reported: err == nil && from.Type.Null != to.Type.Null ==> r != nil
 //@   ensures no-flag-outside-null-type-default-generated: err == nil && r != nil ==> r.(*schema.ModifyColumn).Change&^(schema.ChangeNull|schema.ChangeType|schema.ChangeDefault|schema.ChangeGenerated) == 0
 //@   ensures fails-iff-a-type-is-missing: (err != nil) == (from.Type.Type == nil || to.Type.Type == nil)
